@@ -284,3 +284,24 @@ _add5("C15", "No two names of authz.NormalizeFuncs denote the same function, and
 _add5("C16", "The coherence of a literal is judged per switch world (the constant case labels a path enters through), so that a recorded finding names one input form (R1); every call of exterrors.SMTPCode passes a constant 4xx and a constant 5xx (R12); the failure report's Status is the stored status of the error it quotes (C18.R2 as R13).")
 _add5("C17", "After the last lower-casing step of each key function an NFC step follows – lower-casing is not closed under NFC (R4); no transitional IDNA profile (R10); dns.LowerASCII maps every string pointwise, no path returns the parameter (R11); inside a loop over the characters of a string the byte at the loop index is never written in place of the character (R12).")
 _add5("C19", "The queue ends a downstream delivery exactly once (C01.R1 as R14); the numeric bounds of pool.Config are never assigned inside the pool (R15); pool.Return stores or closes the connection on every path, also when the pool was shut down meanwhile (R16).")
+# ---- rounds nine and ten (DESIGN.md §R.18, §R.19)
+def _add6(_id, more, ref=", §R.18, §R.19"):
+    tech, text, note, r = CLAIMED[_id]
+    CLAIMED[_id] = (tech, text + " Rounds 9-10: " + more, note, r + ref)
+for _id in list(CLAIMED):
+    _add6(_id, "discipline rules E13 (no two configuration directives of one Init store into the same destination) and E14 (an element store into a local copy of an array is read again on every path) on every function of the property's packages.", ref="")
+_add6("C02", "a failure of Body / Commit is recorded for every accepted recipient (C01.R2 as R15).")
+_add6("C03", "once the semaphore's slot was taken the limiter reports success, never an error re-read from the context (C11.R9 as R5d).")
+_add6("C05", "dns.IsNotFound answers true only for NXDOMAIN and the resolver's own flag (C13.R12 as R16).")
+_add6("C06", "the collection whose keys drive the destination blocks' body checks only grows while the delivery is open (R14); inside one check result the reject slot is reached whenever Reject is set, whether or not Quarantine is set as well (R3d).")
+_add6("C07", "the DMARC version filter is the version tag used as a prefix (R16b); the body-check block list only grows (C06.R14 as R17).")
+_add6("C09", "a getter of a recorded recipient list hands out the whole list (K15).")
+_add6("C10", "the failure report's spool key is freshly generated (C02.R12 as R13); MsgMetadata.DeepCopy gives the copy its own table for every map-typed field, so what a pipeline behind the queue records never reaches the stored record (R14).")
+_add6("C11", "a session the SMTP library replaces is logged out by the library or by NewSession (C03.A1 as R3d); the capacity handed to make(chan) in the limiter packages cannot be negative (R12).")
+_add6("C12", "every queue instance has a spool directory of its own (C10.R7 as R20).")
+_add6("C13", "dns.IsNotFound answers true only for NXDOMAIN and the resolver's own flag (R12).")
+_add6("C15", "PLAIN with a foreign authorization identity is refused before any authentication (C14.R6 as R19).")
+_add6("C16", "a statement that assigns the basic code of an existing SMTP error value is accompanied on every path by an assignment of its enhanced code, constant classes agreeing (R14).")
+_add6("C18", "the queue keeps a recipient under the very string it was given (C10.R5 as R17) and the metadata object it was given (C10.R3e as R18); a store into the table field of a private value copy is not a replacement of the message's table (R8).")
+_add6("C19", "within one iteration no path both closes a connection and returns it to the pool (R17); no loop over all deliveries runs inside the committing loop (R18).")
+_add6("C20", "a character read with ReadRune is pushed back with UnreadRune, never UnreadByte (R8).")
